@@ -1,2 +1,315 @@
+"""Lexer rule table: re-emits the *processed* token table of pydiffx's pygments lexer
+(`DiffXLexer._tokens`, built by pygments' metaclass: includes expanded, regexes compiled with the class flags)
+as the Coq value `GenLexer.rules`, in the datatypes of theories/Lexer.v.
+
+Fail closed: every regex construct, flag, action object or state transition that is not recognised exactly
+raises TranslateError through `need`.  What is recognised:
+
+  regex      LITERAL, NOT_LITERAL, ANY, IN (LITERAL / RANGE / CATEGORY / NEGATE), BRANCH, SUBPATTERN (capturing or
+             not, without inline flags), MAX_REPEAT / MIN_REPEAT whose body cannot match the empty string,
+             ASSERT (positive lookahead), AT_BEGINNING under MULTILINE, AT_END_STRING; flags within
+             DOTALL | MULTILINE | UNICODE.  Categories are expanded to code point ranges by asking the running `re`.
+  action     a token type; pygments' own `bygroups` closure whose args are token types, None or `using` closures;
+             pygments' own `using` closures (`this` with a state stack, or another lexer class without options).
+  new state  None, the ints produced by '#pop', '#push', tuples of state names.
+"""
+import importlib
+import re
+
+
 def gen_lexer(write_if_changed, coq_bytes, coq_str, coq_list, need):
-    return False
+    import re._parser as P
+    import re._constants as C
+    import pygments.lexer as PL
+    from pygments.token import _TokenType
+
+    mod = importlib.import_module('pydiffx.integrations.pygments_lexer')
+    cls = getattr(mod, 'DiffXLexer', None)
+    need(isinstance(cls, type) and issubclass(cls, PL.RegexLexer), 'DiffXLexer is not a RegexLexer')
+    need(not issubclass(cls, PL.ExtendedRegexLexer), 'DiffXLexer is an ExtendedRegexLexer')
+    # the engine that Lexer.v models must be the one that runs
+    need(cls.get_tokens_unprocessed is PL.RegexLexer.get_tokens_unprocessed,
+         'DiffXLexer overrides get_tokens_unprocessed')
+    lx = cls()
+    need(lx.options == {}, 'DiffXLexer() has default options %r' % (lx.options,))
+    toks = cls._tokens
+    need(isinstance(toks, dict) and toks, 'DiffXLexer._tokens is not a non-empty dict')
+
+    # code objects of pygments' own callbacks: closures are recognised by identity of their code
+    code_bygroups = PL.bygroups().__code__
+    code_using_this = PL.using(PL.this).__code__
+    code_using_other = PL.using(PL.Lexer).__code__
+    need(len({id(code_bygroups), id(code_using_this), id(code_using_other)}) == 3, 'pygments callbacks not distinct')
+
+    _coq_str, _coq_bytes = coq_str, coq_bytes
+    coq_str = lambda x: '(' + _coq_str(x) + ')'
+    coq_bytes = lambda x: '(' + _coq_bytes(x) + ')'
+
+    def N(n):
+        need(isinstance(n, int) and not isinstance(n, bool) and 0 <= n <= 0x10ffff, 'bad code point %r' % (n,))
+        return '%d%%N' % n
+
+    def nat(n):
+        need(isinstance(n, int) and not isinstance(n, bool) and 0 <= n < 100000, 'bad count %r' % (n,))
+        return '%d' % n
+
+    # ------------------------------------------------------------ regex
+    # internal AST: ('empty',) ('lit',c) ('class',neg,[(lo,hi)]) ('any',) ('seq',a,b) ('alt',a,b)
+    #               ('rep',greedy,lo,hi|None,a) ('group',n,a) ('look',a) ('bol',) ('endz',)
+    cat_cache = {}
+    CAT_ESC = {C.CATEGORY_DIGIT: r'\d', C.CATEGORY_NOT_DIGIT: r'\D', C.CATEGORY_SPACE: r'\s',
+               C.CATEGORY_NOT_SPACE: r'\S', C.CATEGORY_WORD: r'\w', C.CATEGORY_NOT_WORD: r'\W'}
+
+    def category_ranges(cat):
+        need(cat in CAT_ESC, 'unrecognised regex category %r' % (cat,))
+        if cat not in cat_cache:
+            m = re.compile(CAT_ESC[cat], re.UNICODE).match
+            out = []
+            start = None
+            for cp in range(0x110000):
+                if m(chr(cp)):
+                    if start is None:
+                        start = cp
+                elif start is not None:
+                    out.append((start, cp - 1))
+                    start = None
+            if start is not None:
+                out.append((start, 0x10ffff))
+            cat_cache[cat] = out
+        return cat_cache[cat]
+
+    def nullable(a):
+        k = a[0]
+        if k in ('empty', 'look', 'bol', 'endz'):
+            return True
+        if k in ('lit', 'class', 'any'):
+            return False
+        if k == 'seq':
+            return nullable(a[1]) and nullable(a[2])
+        if k == 'alt':
+            return nullable(a[1]) or nullable(a[2])
+        if k == 'rep':
+            return a[2] == 0 or nullable(a[4])
+        if k == 'group':
+            return nullable(a[2])
+        need(False, 'nullable: %r' % (k,))
+
+    def tr_pattern(pat):
+        need(isinstance(pat, re.Pattern) and isinstance(pat.pattern, str), 'rule regex is not a compiled str pattern')
+        allowed = re.DOTALL | re.MULTILINE | re.UNICODE
+        need(pat.flags & ~allowed == 0 and pat.flags & re.UNICODE, 'unrecognised regex flags %r' % (pat.flags,))
+        dotall = bool(pat.flags & re.DOTALL)
+        multiline = bool(pat.flags & re.MULTILINE)
+        tree = P.parse(pat.pattern, pat.flags)
+        need(tree.state.flags == pat.flags, 'inline flags change the pattern flags in %r' % (pat.pattern,))
+        seen_groups = []
+
+        def seq(items):
+            items = [tr_item(op, av) for (op, av) in items]
+            if not items:
+                return ('empty',)
+            out = items[-1]
+            for it in reversed(items[:-1]):
+                out = ('seq', it, out)
+            return out
+
+        def tr_item(op, av):
+            if op is C.LITERAL:
+                return ('lit', av)
+            if op is C.NOT_LITERAL:
+                return ('class', True, [(av, av)])
+            if op is C.ANY:
+                need(av is None, 'ANY with argument')
+                return ('any',) if dotall else ('class', True, [(10, 10)])
+            if op is C.IN:
+                neg = False
+                ranges = []
+                for i, (o2, a2) in enumerate(av):
+                    if o2 is C.NEGATE:
+                        need(i == 0, 'NEGATE not first in a class')
+                        neg = True
+                    elif o2 is C.LITERAL:
+                        ranges.append((a2, a2))
+                    elif o2 is C.RANGE:
+                        need(isinstance(a2, tuple) and len(a2) == 2, 'bad RANGE')
+                        ranges.append((a2[0], a2[1]))
+                    elif o2 is C.CATEGORY:
+                        ranges.extend(category_ranges(a2))
+                    else:
+                        need(False, 'unrecognised class item %r in %r' % (o2, pat.pattern))
+                return ('class', neg, ranges)
+            if op is C.BRANCH:
+                need(isinstance(av, tuple) and len(av) == 2 and av[0] is None and len(av[1]) >= 1, 'bad BRANCH')
+                alts = [seq(x) for x in av[1]]
+                out = alts[-1]
+                for it in reversed(alts[:-1]):
+                    out = ('alt', it, out)
+                return out
+            if op is C.SUBPATTERN:
+                need(isinstance(av, tuple) and len(av) == 4, 'bad SUBPATTERN')
+                group, add_flags, del_flags, p = av
+                need(add_flags == 0 and del_flags == 0, 'inline flags in %r' % (pat.pattern,))
+                if group is None:
+                    return seq(p)
+                need(isinstance(group, int) and group >= 1, 'bad group number')
+                seen_groups.append(group)
+                return ('group', group, seq(p))
+            if op is C.MAX_REPEAT or op is C.MIN_REPEAT:
+                need(isinstance(av, tuple) and len(av) == 3, 'bad REPEAT')
+                lo, hi, p = av
+                body = seq(p)
+                need(not nullable(body),
+                     'repetition of a body that can match the empty string in %r (not modelled)' % (pat.pattern,))
+                need(isinstance(lo, int) and isinstance(hi, int) and 0 <= lo <= hi, 'bad REPEAT bounds')
+                return ('rep', op is C.MAX_REPEAT, lo, None if hi == C.MAXREPEAT else hi, body)
+            if op is C.ASSERT:
+                need(isinstance(av, tuple) and len(av) == 2 and av[0] == 1,
+                     'unrecognised assertion (lookbehind) in %r' % (pat.pattern,))
+                return ('look', seq(av[1]))
+            if op is C.AT:
+                if av is C.AT_BEGINNING and multiline:
+                    return ('bol',)
+                if av is C.AT_END_STRING:
+                    return ('endz',)
+                need(False, 'unrecognised anchor %r in %r' % (av, pat.pattern))
+            need(False, 'unrecognised regex construct %r in %r' % (op, pat.pattern))
+
+        ast = seq(tree)
+        # Python numbers the groups 1..n in order of their opening parenthesis
+        need(seen_groups == list(range(1, pat.groups + 1)), 'group numbering of %r' % (pat.pattern,))
+        return ast
+
+    def emit_re(a):
+        k = a[0]
+        if k == 'empty':
+            return 'REmpty'
+        if k == 'lit':
+            return '(RLit %s)' % N(a[1])
+        if k == 'class':
+            return '(RClass %s [%s])' % ('true' if a[1] else 'false',
+                                         '; '.join('(%s, %s)' % (N(lo), N(hi)) for lo, hi in a[2]))
+        if k == 'any':
+            return 'RAny'
+        if k == 'seq':
+            return '(RSeq %s %s)' % (emit_re(a[1]), emit_re(a[2]))
+        if k == 'alt':
+            return '(RAlt %s %s)' % (emit_re(a[1]), emit_re(a[2]))
+        if k == 'rep':
+            return '(RRepeat %s %s %s %s)' % ('true' if a[1] else 'false', nat(a[2]),
+                                              'None' if a[3] is None else '(Some %s)' % nat(a[3]), emit_re(a[4]))
+        if k == 'group':
+            return '(RGroup %s %s)' % (nat(a[1]), emit_re(a[2]))
+        if k == 'look':
+            return '(RLook %s)' % emit_re(a[1])
+        if k == 'bol':
+            return 'RBol'
+        if k == 'endz':
+            return 'REndZ'
+        need(False, 'emit: %r' % (k,))
+
+    # ------------------------------------------------------------ actions
+    def closure_of(f, code, names):
+        need(f.__code__ is code, 'callback is not the expected pygments closure')
+        need(tuple(f.__code__.co_freevars) == names and f.__closure__ is not None
+             and len(f.__closure__) == len(names), 'closure shape of %r' % (f,))
+        need(not f.__defaults__ or f.__defaults__ == (None,), 'callback defaults')
+        return dict(zip(names, [c.cell_contents for c in f.__closure__]))
+
+    def state_names(t, what):
+        need(isinstance(t, (tuple, list)) and len(t) >= 1 and all(isinstance(s, str) for s in t), what)
+        return '[' + '; '.join(coq_str(s) for s in t) + ']'
+
+    def tr_using(f):
+        code = getattr(f, '__code__', None)
+        if code is code_using_this:
+            env = closure_of(f, code_using_this, ('gt_kwargs', 'kwargs'))
+            need(env['kwargs'] == {}, 'using(this, ...) with lexer options %r' % (env['kwargs'],))
+            gt = env['gt_kwargs']
+            need(isinstance(gt, dict) and set(gt) <= {'stack'}, 'using(this): gt_kwargs %r' % (gt,))
+            stack = gt.get('stack', ('root',))
+            for s in stack:
+                need(s in toks, 'using(this): state %r is not defined' % (s,))
+            return '(UThis %s)' % state_names(stack, 'using(this): stack %r' % (stack,))
+        if code is code_using_other:
+            env = closure_of(f, code_using_other, ('_other', 'gt_kwargs', 'kwargs'))
+            need(env['kwargs'] == {} and env['gt_kwargs'] == {},
+                 'using(OtherLexer) with options or a state: %r %r' % (env['kwargs'], env['gt_kwargs']))
+            other = env['_other']
+            need(isinstance(other, type) and issubclass(other, PL.Lexer) and other is not cls,
+                 'using(%r): not another lexer class' % (other,))
+            return '(UOther %s)' % coq_str(other.__name__)
+        need(False, 'unrecognised using-like callback %r' % (f,))
+
+    def tok_name(t):
+        need(type(t) is _TokenType, 'not a token type: %r' % (t,))
+        s = str(t)
+        need(s == 'Token' or s.startswith('Token.'), 'token type name %r' % (s,))
+        return coq_str(s)
+
+    def tr_action(act):
+        if type(act) is _TokenType:
+            return '(ATok %s)' % tok_name(act)
+        code = getattr(act, '__code__', None)
+        if code is code_bygroups:
+            env = closure_of(act, code_bygroups, ('args',))
+            args = env['args']
+            need(isinstance(args, tuple), 'bygroups args')
+            out = []
+            for a in args:
+                if a is None:
+                    out.append('GNone')
+                elif type(a) is _TokenType:
+                    out.append('GTok %s' % tok_name(a))
+                else:
+                    out.append('GUsing %s' % tr_using(a))
+            return '(AByGroups [%s])' % '; '.join(out)
+        if code is code_using_this or code is code_using_other:
+            return '(AUsing %s)' % tr_using(act)
+        need(False, 'unrecognised rule action %r' % (act,))
+
+    def tr_new(ns):
+        if ns is None:
+            return 'NsNone'
+        if isinstance(ns, bool):
+            need(False, 'bool new state')
+        if isinstance(ns, int):
+            need(ns < 0, 'non-negative int new state %r' % (ns,))
+            return '(NsPop %s)' % nat(-ns)
+        if ns == '#push':
+            return 'NsPush'
+        if isinstance(ns, tuple):
+            for s in ns:
+                need(isinstance(s, str) and (s in ('#pop', '#push') or s in toks), 'new state %r is not defined' % (s,))
+            return '(NsStates %s)' % state_names(ns, 'new state %r' % (ns,))
+        need(False, 'unrecognised new state %r' % (ns,))
+
+    # ------------------------------------------------------------ table
+    states = []
+    sources = []
+    nrules = 0
+    for sname, rules in toks.items():
+        need(isinstance(sname, str) and isinstance(rules, list), 'state %r' % (sname,))
+        rows = []
+        srcs = []
+        for entry in rules:
+            need(isinstance(entry, tuple) and len(entry) == 3, 'rule %r in state %r' % (entry, sname))
+            rexmatch, act, new = entry
+            pat = getattr(rexmatch, '__self__', None)
+            need(isinstance(pat, re.Pattern) and getattr(rexmatch, '__name__', None) == 'match',
+                 'rule matcher is not pattern.match in state %r' % (sname,))
+            rows.append('{| r_re := %s;\n       r_act := %s;\n       r_new := %s |}'
+                        % (emit_re(tr_pattern(pat)), tr_action(act), tr_new(new)))
+            srcs.append(coq_bytes(pat.pattern.encode('utf-8')))
+            nrules += 1
+        states.append('(%s,\n    [%s])' % (coq_str(sname), ';\n     '.join(rows)))
+        sources.append('(%s, [%s])' % (coq_str(sname), '; '.join(srcs)))
+    need('root' in toks, "no 'root' state")
+    need(nrules >= 1, 'empty rule table')
+
+    out = ['From DX Require Import Lexer.',
+           '(* DiffXLexer._tokens: state name -> ordered rules (regex syntax tree, action shape, new state) *)',
+           'Definition rules : rule_table :=\n  [%s].' % ';\n   '.join(states),
+           '(* the pattern texts, recorded only (UTF-8) *)',
+           'Definition pattern_sources : list (bytes * list bytes) :=\n  %s.' % coq_list(sources),
+           'Definition rule_count : nat := %d.' % nrules]
+    return write_if_changed('GenLexer.v', '\n'.join(out) + '\n')
